@@ -63,6 +63,7 @@ func runP7Sym(sc M) {
 		return
 	}
 	results := M{}
+	wrappedBefore, bareBefore := append([]byte{}, wrapped...), append([]byte{}, bare...)
 	run := func(name string, f func() (bool, error)) {
 		callStart(id, name, nil)
 		var ok bool
@@ -187,6 +188,9 @@ func runP7Sym(sc M) {
 		case expect == "must" && rs != "true":
 			bad = append(bad, name+": honest signature not accepted ("+rs+")")
 		}
+	}
+	if !bytes.Equal(wrapped, wrappedBefore) || !bytes.Equal(bare, bareBefore) {
+		bad = append(bad, "input: parsing / verifying changed the caller's signature bytes")
 	}
 	emit(M{"sc": id, "ev": "call-end", "call": "p7sym", "results": results, "expect": expect, "agree": len(bad) == 0, "bad": bad})
 	_ = x509.SHA256WithRSA
